@@ -96,7 +96,11 @@ func c05serve(f *flamego.Flame, q *Sx, tok string) string {
 	a := q.Args()
 	hdr := http.Header{"X-Tok": {tok}}
 	for _, h := range a[2].Args() {
-		hdr.Set(h.Args()[0].Bytes(), h.Args()[1].Bytes())
+		if h.Args()[1].Atom == "novalues" {
+			hdr[http.CanonicalHeaderKey(h.Args()[0].Bytes())] = []string{}
+		} else {
+			hdr.Set(h.Args()[0].Bytes(), h.Args()[1].Bytes())
+		}
 	}
 	w := &wireWriter{hdr: http.Header{}}
 	res := ""
